@@ -109,10 +109,24 @@ package opentype
 //@   params r, p
 //@   ensures [error-raises-flag] implies(result1 != nil, readFails(r))
 //@   modifies p[0:len(p)]
+//   readInFull(r, n) is a ghost flag raised by a successful io.ReadFull of n bytes from r (one-way, like readFails):
+//   a plain Read may legally deliver fewer bytes without an error, so a header decoded after a plain Read is not
+//   known to be complete - the defect repaired in the fix "read fixed-size font headers with io.ReadFull".
+//@ opaque readInFull(r io.Reader, n int) bool
+//@ trusted std:io.ReadFull
+//@   params r, buf
+//@   ensures [full-or-error] implies(result1 == nil, readInFull(r, len(buf)))
+//@   ensures [error-raises-flag] implies(result1 != nil, readFails(r))
+//@   modifies buf[0:len(buf)]
 //@ func readOTFHeader C19
 //@   mode bv
 //@   ensures [rejects-only-on-read-error] implies(err != nil, readFails(r))
+//@   ensures [header-read-in-full] implies(err == nil, readInFull(r, 12))
 //@   modifies nothing
+//@ func parseTTCHeader C19
+//@   mode bv
+//@   assert_at call Uint32#1 : [header-read-in-full] readInFull(r, 12)
+//@   modifies unspecified
 //
 // Loader.Tables returns the tags "sorted by tag": the comparator handed to sort.Slice is the (unsigned) order of Tag,
 // the one WriteTTF expects of its input and binary search over the directory relies on.
